@@ -434,7 +434,7 @@ def run(chk):
     try:
         run_ = Runner(root)
         rng = chk.rng
-        ncases = 30000 if thorough else 1500
+        ncases = 20000 if thorough else 1500
         maxfiles, maxdocs = (8, 6) if thorough else (4, 3)
         cases = []
         # fixed corner cases first
@@ -469,23 +469,11 @@ def run(chk):
         for c, t, (rc, out, err) in zip(cases, terms, results):
             status = b"0" if rc == 0 else b"1"
             coq_cases.append((t, status + out))
-        # the model as coded first; if it disagrees, the repaired variants (theorem C10_seq_is_concat_fixed covers them)
-        variant, best = None, None
-        for name, fn in (("as-coded", "run_case false false"), ("previousFileIndex-updated", "run_case true false"),
-                         ("results-stamped", "run_case false true"), ("both-repairs", "run_case true true")):
-            mism, errlog = vlib.coq_mismatches(chk.workdir, "c10_cases", IMPORTS, fn, coq_cases, shard=120)
-            if errlog:
-                broken.append("model evaluation failed: " + errlog[-600:])
-                vlib.log("model evaluation failed: " + errlog[-1500:])
-                mism = []
-                break
-            if best is None or len(mism) < len(best[1]):
-                best = (name, mism)
-            if not mism:
-                break
-        if best is not None:
-            variant, mism = best
-        chk.extra["model_variant_matching"] = variant
+        mism, errlog = vlib.coq_mismatches(chk.workdir, "c10_cases", IMPORTS, "run_case", coq_cases, shard=120)
+        if errlog:
+            broken.append("model evaluation failed: " + errlog[-600:])
+            vlib.log("model evaluation failed: " + errlog[-1500:])
+            mism = []
         for i, mo in mism:
             disagreements.append((cases[i], results[i], mo))
         with open(os.path.join(chk.workdir, "disagreements.json"), "w") as f:
